@@ -78,6 +78,13 @@ def run_shard(desc, ctx):
                 continue
             for dt in ('int32', 'int64'):
                 run_case({'vec': list(vec), 'dtype': dt, 'shifted': bool(idx % 2), 'rot': idx}, ctx)
+    # negative ids other than -1 (they are ids like any other for the grouping functions; _unique leaves them out)
+    for n in range(2, 6):
+        for vec in itertools.product([-5, -2, -1, 0, 3, 7], repeat=n):
+            idx += 1
+            if idx % ns != sh or min(vec) > -2 or idx % 5:
+                continue
+            run_case({'vec': list(vec), 'dtype': ['int32', 'int64'][idx % 2], 'shifted': bool(idx % 3 == 0), 'rot': idx}, ctx)
     # -1 next to sparse large ids
     for n in range(2, 5):
         for vec in itertools.product([-1, 5, 70000], repeat=n):
@@ -184,6 +191,20 @@ def run_case(case, ctx):
         ctx.violation('not_a_partition', case, '_spikes_per_cluster -> %r' % (
             {int(k): np.asarray(v).tolist()[:20] for k, v in list(spc.items())[:8]}
             if isinstance(spc, dict) else spc), feats)
+    # the groups are the caller's own arrays, and so is the id vector it supplied: writing into one must not change the other
+    if spike_ids is not None and isinstance(spc, dict) and ok:
+        kept = {k: np.array(v, copy=True) for k, v in spc.items()}
+        ids_copy = spike_ids.copy()
+        k0_ = sorted(spc)[0]
+        if isinstance(spc[k0_], np.ndarray) and spc[k0_].flags.writeable and spc[k0_].size:
+            spc[k0_][...] = -7
+            if not np.array_equal(spike_ids, ids_copy):
+                ctx.violation('inputs_modified', case, 'writing into a returned group changed the spike-id vector supplied by the caller', feats)
+            spc[k0_][...] = kept[k0_]
+        spike_ids[...] = -9                    # the caller recycles its id buffer
+        if any(not np.array_equal(np.asarray(spc[k]), kept[k]) for k in kept):
+            ctx.violation('not_a_partition', case, 'groups returned earlier changed when the caller reused its spike-id buffer', dict(feats, held_result=True))
+        spike_ids[...] = ids_copy
     # _spikes_in_clusters: sorted union of groups (groups by index, so recompute without ids)
     groups = {c: np.nonzero(sc == c)[0] for c in ids_present}
     pool5 = (POOL + [-1] if has_neg else POOL) if max(ids_present) < 100 else ([5, 70000, 9, 123456, 2] if max(ids_present) > 65535 else [0, 7, 65535, 300, 65534])
@@ -283,7 +304,18 @@ def _model_case(case, ctx):
                        spikeless=['none', 'first', 'middle'][int(rng.integers(0, 3))])
     d = scratch_dir('c07_')
     try:
-        r = call(load_model, spec.write(d))
+        params_ = spec.write(d)
+        n_tpl = spec.n_templates
+        if case['model'][-1] % 4 == 3 and not spec.curated and spec.template_ind is None:
+            # a dataset without a templates file (spike-sorting output stripped down to the spikes): the templates are
+            # then numbered 0 .. highest id in use
+            import os
+            for fn in ('templates.npy', 'similar_templates.npy', 'template_features.npy', 'template_feature_ind.npy'):
+                if os.path.exists(os.path.join(d, fn)):
+                    os.remove(os.path.join(d, fn))
+            n_tpl = int(spec.spike_templates.max()) + 1
+            ctx.cell('model', 'no_templates_file')
+        r = call(load_model, params_)
         ctx.count(1, key=hkey('model', tuple(case['model'])), nontrivial=True, cell=('model',))
         if not r.ok:
             ctx.violation('raised', case, 'load_model raised %r' % r.exc, {'model': True}, tb=r.tb)
@@ -296,7 +328,7 @@ def _model_case(case, ctx):
             if isinstance(v, np.ndarray) and v.flags.writeable and v.size:
                 v[...] = 0
                 ctx.mon('returned_array_modified')
-        for t in list(range(spec.n_templates + 1)) * 2:
+        for t in list(range(n_tpl + 1)) * 2:
             rr = call(m.get_template_spikes, as_id(t, t))
             if rr.ok:
                 exp_ = np.nonzero(st == t)[0]
@@ -314,7 +346,7 @@ def _model_case(case, ctx):
             elif not np.shares_memory(rr.value, m.spike_clusters):
                 scribble(rr.value)
             rr = call(m.get_template_counts, as_id(c, c + 2))
-            exp = np.bincount(st[sc == c].astype(np.int64), minlength=spec.n_templates)
+            exp = np.bincount(st[sc == c].astype(np.int64), minlength=n_tpl)
             if not rr.ok or same(rr.value, exp, dtype=False):
                 ctx.violation('model_query', case, 'get_template_counts(%d) -> %r, expected %r' % (
                     c, rr.value if rr.ok else rr.exc, exp), {'model': True}, tb=rr.tb)
@@ -332,7 +364,7 @@ def _model_case(case, ctx):
                     ctx.violation('model_query', case, 'after an in-place update of spike_clusters, get_cluster_spikes(%d) -> %r' % (
                         c, rr.value if rr.ok else rr.exc), {'model': True, 'after_inplace_update': True}, tb=rr.tb)
                 rr = call(m.get_template_counts, as_id(c, c + 2))
-                exp = np.bincount(st[sc2 == c].astype(np.int64), minlength=spec.n_templates)
+                exp = np.bincount(st[sc2 == c].astype(np.int64), minlength=n_tpl)
                 if not rr.ok or same(rr.value, exp, dtype=False):
                     ctx.violation('model_query', case, 'after an in-place update, get_template_counts(%d) -> %r' % (
                         c, rr.value if rr.ok else rr.exc), {'model': True, 'after_inplace_update': True}, tb=rr.tb)
